@@ -490,9 +490,121 @@ static void run_history(void)
 	xp_state(hash_mix((uint64_t)hf * 100000 + (uint64_t)shortk * 10 + (uint64_t)second_by, 7 + 2 * (uint64_t)nusers + 64 * (uint64_t)salt_seed));
 }
 
+/* ---- section 3: account names that differ only in case --------------------------------------------------------------------
+ * The file holds a privileged account and a plain one whose names are equal ignoring case, in either order, plus bob.  Whether
+ * the daemon treats names case-sensitively or not is its choice; whichever it is, it must be the same for "who is this peer"
+ * (authentication), "what may it do" (admin flag) and "whose entry is changed" (target).  Reference, independent of that choice:
+ * a caller that offers only the PLAIN account's password never changes the entry of bob or of the privileged account, and an
+ * acknowledged change of one's own password is effective for the very name and password that were used. */
+static const char *entry_hash(const cJSON *users, const char *exact_name)
+{
+	for (const cJSON *u = users ? users->child : NULL; u != NULL; u = u->next) {
+		if (u->string != NULL && strcmp(u->string, exact_name) == 0) {
+			const cJSON *pw = cJSON_GetObjectItemCaseSensitive(u, "password");
+			return cJSON_IsString(pw) ? pw->valuestring : NULL;
+		}
+	}
+	return NULL;
+}
+
+static void run_case_twins(void)
+{
+	static const char *const PRIV = "admin", *const PLAIN = "Admin";
+	static const char *const PW_PRIV = "Winter-2025-priv!", *const PW_PLAIN = "Winter-2025-plain", *const PW_BOB = "Winter-2025-bob!!", *const PW_NEW = "Winter-2025-new!!";
+	static const char *const LOGIN[] = {"admin", "Admin", "ADMIN"};
+	static const char *const TARGET[] = {"bob", "admin", "Admin", "ADMIN", "BOB"};
+	int order = xp_choose(2, XP_SCENARIO, "file-order"); /* 0: privileged entry first, 1: plain entry first */
+	int ln = xp_choose(3, XP_SCENARIO, "login-name");
+	int lp = xp_choose(2, XP_SCENARIO, "login-password"); /* 0: the plain account's, 1: the privileged account's */
+	int tg = xp_choose(5, XP_SCENARIO, "target");
+	int tr = xp_choose(2, XP_SCENARIO, "transport");
+	snprintf(what, sizeof(what), "file with '%s' (admin flag) and '%s' (plain), %s first; a peer authenticates as '%s' with the %s account's password and changes the password of '%s' (%s)", PRIV, PLAIN, order ? "plain" : "privileged", LOGIN[ln], lp ? "privileged" : "plain", TARGET[tg], tr ? "websocket" : "raw");
+	char hp[128], hl[128], hb[128];
+	snprintf(hp, sizeof(hp), "%s", crypt(PW_PRIV, "$1$saltpriv$"));
+	snprintf(hl, sizeof(hl), "%s", crypt(PW_PLAIN, "$1$saltplai$"));
+	snprintf(hb, sizeof(hb), "%s", crypt(PW_BOB, "$1$saltbob0$"));
+	struct bytebuf f = {0};
+	char ep[400], el[400];
+	snprintf(ep, sizeof(ep), "\"%s\":{\"password\":\"%s\",\"admin\":true,\"auth\":{\"fetchGroups\":[\"g\"],\"setGroups\":[\"g\"],\"callGroups\":[\"g\"]}}", PRIV, hp);
+	snprintf(el, sizeof(el), "\"%s\":{\"password\":\"%s\",\"auth\":{\"fetchGroups\":[\"g\"],\"setGroups\":[\"g\"],\"callGroups\":[\"g\"]}}", PLAIN, hl);
+	bb_printf(&f, "{\"users\":{%s,%s,\"bob\":{\"password\":\"%s\",\"auth\":{\"fetchGroups\":[\"g\"],\"setGroups\":[\"g\"],\"callGroups\":[\"g\"]}}}}", order ? el : ep, order ? ep : el, hb);
+	bb_append(&f, "", 1);
+	struct sim_opts o = {0};
+	o.passwd_file = (char *)f.p;
+	if (!sim_boot(&o)) {
+		xp_count("daemon_refuses_a_file_with_case_twins", 1); /* a clean answer to such a file */
+		xp_nontrivial();
+		xp_transition();
+		xp_state(hash_mix((uint64_t)order, 4444));
+		xp_end_run();
+	}
+	int P = jx_open(tr ? CL_WS : CL_RAW);
+	jx_sendf(P, "{\"id\":\"a\",\"method\":\"authenticate\",\"params\":{\"user\":\"%s\",\"password\":\"%s\"}}", LOGIN[ln], lp ? PW_PRIV : PW_PLAIN);
+	jx_settle();
+	bool logged_in = jx_is_success(jx_find_response_str(P, "a", 0));
+	jx_sendf(P, "{\"id\":\"pw\",\"method\":\"passwd\",\"params\":{\"user\":\"%s\",\"password\":\"%s\"}}", TARGET[tg], PW_NEW);
+	jx_settle();
+	struct cl_msg *r = jx_find_response_str(P, "pw", 0);
+	if (r == NULL) {
+		fail20("passwd-not-answered:case-twins", "the passwd request got no response");
+	}
+	bool acked = jx_is_success(r);
+	if (acked && !logged_in) {
+		fail20("case-twins:change-by-unauthenticated-peer", "the authentication was refused but the password change was acknowledged");
+	}
+	const struct bytebuf *img = sim_fs_content();
+	char *text = malloc(img->len + 1);
+	memcpy(text, img->p, img->len);
+	text[img->len] = 0;
+	cJSON *root = cJSON_Parse(text);
+	const cJSON *users = root ? cJSON_GetObjectItemCaseSensitive(root, "users") : NULL;
+	if (users == NULL) {
+		fail20("case-twins:file-not-loadable", "the credential file no longer parses: %.200s", text);
+	}
+	const char *np = entry_hash(users, PRIV), *nl = entry_hash(users, PLAIN), *nb = entry_hash(users, "bob");
+	bool priv_changed = np == NULL || strcmp(np, hp) != 0, plain_changed = nl == NULL || strcmp(nl, hl) != 0, bob_changed = nb == NULL || strcmp(nb, hb) != 0;
+	char key[200];
+	if (!lp) {
+		/* only the plain account's password was ever offered */
+		if (bob_changed || priv_changed) {
+			snprintf(key, sizeof(key), "case-twins:plain-password-changes-%s-entry", bob_changed ? "another-account's" : "the-privileged");
+			fail20(key, "the caller proved only the plain account's password, yet the entry of %s was changed in the file (request %s)", bob_changed ? "bob" : "the privileged account", acked ? "acknowledged" : "answered with an error");
+		}
+	}
+	if (!acked && (bob_changed || priv_changed || plain_changed)) {
+		fail20("case-twins:refused-change-on-disk", "the change was answered with an error but an entry of the file changed");
+	}
+	if ((int)priv_changed + (int)plain_changed + (int)bob_changed > 1) {
+		fail20("case-twins:several-entries-changed", "one passwd request changed more than one entry of the file");
+	}
+	/* an acknowledged change is effective for the target name as the caller wrote it */
+	if (acked) {
+		if (!can_login(TARGET[tg], PW_NEW)) {
+			fail20("case-twins:acknowledged-change-not-effective", "the change was acknowledged but '%s' cannot authenticate with the new password", TARGET[tg]);
+		}
+		if (!(priv_changed || plain_changed || bob_changed)) {
+			fail20("case-twins:acknowledged-change-not-on-disk", "the change was acknowledged but no entry of the file changed");
+		}
+	}
+	/* the running daemon and the file agree: whoever could log in before and was not changed still can */
+	if (!bob_changed && !can_login("bob", PW_BOB)) {
+		fail20("case-twins:unchanged-account-locked-out", "bob's entry is unchanged but bob can no longer authenticate");
+	}
+	cJSON_Delete(root);
+	free(text);
+	xp_count(acked ? "changes_acknowledged" : "changes_refused", 1);
+	xp_count(logged_in ? "logins_accepted" : "logins_refused", 1);
+	xp_nontrivial();
+	xp_transition();
+	xp_outcome(hash_mix((uint64_t)acked * 8 + (uint64_t)priv_changed * 4 + (uint64_t)plain_changed * 2 + (uint64_t)bob_changed, (uint64_t)logged_in));
+	xp_state(hash_mix((uint64_t)order * 1000 + (uint64_t)ln * 100 + (uint64_t)lp * 50 + (uint64_t)tg * 2 + (uint64_t)tr, 4445));
+}
+
 static void run(void)
 {
-	if (xp_param("section", 0) == 2) {
+	if (xp_param("section", 0) == 3) {
+		run_case_twins();
+	} else if (xp_param("section", 0) == 2) {
 		run_history();
 	} else if (xp_param("section", 0) == 1) {
 		run_crash();
@@ -505,6 +617,6 @@ const struct driver drv_c20 = {
     .name = "c20",
     .property = "C20",
     .run = run,
-    .rule = "section 0: credential file with 7 accounts (plain, admin, read-only, read-only admin, names that are prefixes / extensions of each other) x 8 caller identities (unauthenticated, plain, admin, read-only, plain then failed authentication, prefix-named, read-only admin, re-authenticated) x 9 targets (each account, unknown, empty) x 2 transports x {single change, a second change by the admin afterwards}; reference: allowed iff caller authenticated, target exists and is not read-only, caller is the target or an admin; allowed => success, the new password (which differs from the old one only in its last character) authenticates and the old does not, every other account unaffected, file rewritten and complete; refused => error, file byte-identical, nothing changed; section 1: one allowed change (by the user / by the admin) x fault outcome {none, ftruncate fails, write fails ENOSPC / EIO, first write accepts only j bytes for EVERY j < file size} x EVERY crash point (file image before the change and after each mutating call, recorded by the simulated file system in a twin execution): a fresh daemon booted on the image must load it and authenticate john with exactly one of old / new password and every other account unchanged; acknowledged => new set on disk and effective in the running daemon; error answer => old set on disk and in memory; section 2: histories of two changes in one daemon run - the first meets {no fault, ftruncate fails, write fails ENOSPC, write accepts k bytes then ENOSPC, write accepts k bytes then the rest} for EVERY k, the second (a third password, by john or by the admin) meets none: both are answered, the fault-free one is acknowledged, the running daemon and a fresh daemon booted on the final file authenticate john with exactly the password the two answers describe, other accounts unchanged; params: users (file size), salt (seed of the deterministic random stub); non-trivial = all applicable runs",
+    .rule = "section 0: credential file with 7 accounts (plain, admin, read-only, read-only admin, names that are prefixes / extensions of each other) x 8 caller identities (unauthenticated, plain, admin, read-only, plain then failed authentication, prefix-named, read-only admin, re-authenticated) x 9 targets (each account, unknown, empty) x 2 transports x {single change, a second change by the admin afterwards}; reference: allowed iff caller authenticated, target exists and is not read-only, caller is the target or an admin; allowed => success, the new password (which differs from the old one only in its last character) authenticates and the old does not, every other account unaffected, file rewritten and complete; refused => error, file byte-identical, nothing changed; section 1: one allowed change (by the user / by the admin) x fault outcome {none, ftruncate fails, write fails ENOSPC / EIO, first write accepts only j bytes for EVERY j < file size} x EVERY crash point (file image before the change and after each mutating call, recorded by the simulated file system in a twin execution): a fresh daemon booted on the image must load it and authenticate john with exactly one of old / new password and every other account unchanged; acknowledged => new set on disk and effective in the running daemon; error answer => old set on disk and in memory; section 2: histories of two changes in one daemon run - the first meets {no fault, ftruncate fails, write fails ENOSPC, write accepts k bytes then ENOSPC, write accepts k bytes then the rest} for EVERY k, the second (a third password, by john or by the admin) meets none: both are answered, the fault-free one is acknowledged, the running daemon and a fresh daemon booted on the final file authenticate john with exactly the password the two answers describe, other accounts unchanged; section 3: a file with a privileged and a plain account whose names differ only in case (both orders) plus bob x login name {admin, Admin, ADMIN} x offered password {plain's, privileged's} x target {bob, admin, Admin, ADMIN, BOB} x transport: a caller that proved only the plain account's password changes neither bob's nor the privileged entry, a refused change leaves the file alone, one request changes at most one entry, an acknowledged change is on disk and authenticates the target name as written; params: users (file size), salt (seed of the deterministic random stub); non-trivial = all applicable runs",
     .assumptions = "a crash is modelled as losing everything after a mutating call of the credential file (ftruncate / write); the simulated file system applies each call atomically|write() returning 0 for a non-empty buffer is not modelled",
 };
